@@ -650,6 +650,8 @@ class Intrinsics:
             return ex.concrete_op(lambda: obj[key])
         if isinstance(obj, ExternalRef):  # typing subscript e.g. list[str]
             return obj
+        if isinstance(obj, (SInt, SBool, SReal)) or obj is None or isinstance(obj, (int, float, bool)):
+            ex.raise_builtin("TypeError", "object is not subscriptable")
         raise Unsupported(f"subscript of {obj!r}")
 
     def any_getitem(self, obj, key):
